@@ -990,6 +990,11 @@ def broken_facet(ctx, res, n_cuts):
         od = '1' if str(path).endswith('OUTPUT_DATA') else '0'
         lines += ['open %s %s -' % (hexs(str(path)), od), 'index -1', 'view']
     rep = core.run_driver('drv_c05', lines)
+    # a reader that gave no answer where the model does not diverge is asked once more, alone, with more time
+    for k, (job, r) in enumerate(zip(jobs, outs)):
+        o, a, v = rep[3 * k: 3 * k + 3]
+        if isinstance(r, Timeout) and not (o == 'exc diverges' or (o.startswith('ok') and a == 'exc diverges')):
+            outs[k] = confirm_timeouts('job_broken', [job], [r], ctx.n(8, 20))[0]
     for k, (job, r) in enumerate(zip(jobs, outs)):
         o, a, v = rep[3 * k: 3 * k + 3]
         f['cases'] += 1
@@ -1142,6 +1147,19 @@ class Timeout:
         self.info = info
 
 
+def confirm_timeouts(fname, jobs, results, timeout, module=None, narrow=None):
+    """a job that gave no answer is run once more, alone and with three times the time limit, before it is believed
+    (a busy machine must not look like a reader that spins).  `narrow(job, info)` may reduce the job to the step that hung."""
+    out = list(results)
+    for k, (job, r) in enumerate(zip(jobs, results)):
+        if isinstance(r, Timeout):
+            j2 = narrow(job, r.info) if narrow else job
+            r2 = run_jobs(fname, [j2], timeout=3 * timeout, nworkers=1, module=module)[0]
+            if not isinstance(r2, Timeout):
+                out[k] = r2 if narrow is None else ('recovered', r2)
+    return out
+
+
 # ====================================================================== property module interface
 
 THEOREMS = ['Props.C05.' + t for t in ['binding_is_modelled', 'column_boundaries_correct', 'row_slicing_correct', 'field_value_printed', 'blank_field_is_zero',
@@ -1259,6 +1277,7 @@ def run(ctx):
                              skips=[['connection'], ['element', 'generation']] if 'case11' in rel else [],
                              seed=1, dump=ctx.model_ok, addr_samples=12))
     results = run_jobs('job_c05', jobs, timeout=ctx.n(120, 600))
+    results = confirm_timeouts('job_c05', jobs, results, ctx.n(120, 600))
     # floor of accepted variants per file: a variant the reader refuses at open says nothing about the tables
     floor = ctx.n(1, 4)
     accepted = Counter()
